@@ -118,7 +118,16 @@ static void corrupt(std::vector<unsigned char> &b, Rng &r, const Layout *lay) {
     if (b.empty()) { b.push_back((unsigned char) r.below(256)); return; }
     size_t pos = (size_t) r.below(b.size());
     if (lay && !lay->toks.empty() && r.chance(1, 2)) { const Tok &t = lay->toks[r.below(lay->toks.size())]; pos = std::min(b.size() - 1, r.chance(1, 2) ? t.start : (t.end ? t.end - 1 : 0)); }   // near token boundaries (offsets approximate for non-ASCII text)
-    switch (r.below(7)) {
+    switch (r.below(9)) {
+        case 7: case 8: {
+            // a whole defective construct (the probes of the C12 check and relatives) spliced in between two tokens: several of them in one
+            // document make the parser's recovery paths meet each other, which single-defect documents (C12) never do
+            static const char *const P[] = { " loop_ ", " loop_ _e1 _e2 ", " _q 'abc def\n", " _m ['x''y'] ", " ] ", " } ", " _l [1 2 ", " _t {'a':1 zz 'b':2} ", " _t {:5 'b':2} ", " _t {ab:5 'b':2} ",
+                " _t {\n;k\n;:5 'b':2} ", " _t {\n;k\x01\n;:5} ", " _t {'k\x01':5 'b':2} ", " _t {'a':} ", " _t {'a' 1} ", " _t {'a':1 'a':2} ", " stop_ ", " save_ ", " save_fr ", " data_ ", " global_ ", " _dup 1 _dup 2 ",
+                " loop_ _a _a 1 2 ", " loop_ _a _b 1 ", " _v \n;unterminated text", " _v '''unterminated", " _ 5 ", " loop_ _ 1 ", " _v [ { ] } ", " _v {'a':[1 {'b':2 ] } ", " $frame_ref ", " _v 'a'b ", " _v \"x\"'y' " };
+            if (lay && !lay->toks.empty()) { const Tok &t = lay->toks[r.below(lay->toks.size())]; pos = std::min(b.size(), (size_t) t.start); }
+            const char *t = P[r.below(sizeof P / sizeof P[0])]; b.insert(b.begin() + (long) pos, (const unsigned char *) t, (const unsigned char *) t + strlen(t)); g_stats.inc("fault.corrupt.defective_construct"); break;
+        }
         case 0: b[pos] ^= (unsigned char) (1u << r.below(8)); g_stats.inc("fault.corrupt.bitflip"); break;
         case 1: { static const unsigned char S[] = { 0, 1, 0x0b, 0x0c, 0x0d, 0x1a, 0x7f, 0x80, 0xc0, 0xed, 0xf8, 0xfe, 0xff, '\'', '"', ';', '[', '{', ']', '}', ':', '\\', '#', '_', '$' }; b[pos] = S[r.below(sizeof S)]; g_stats.inc("fault.corrupt.replace"); break; }
         case 2: { size_t n = std::min(b.size() - pos, (size_t) r.range(1, 40)); b.erase(b.begin() + (long) pos, b.begin() + (long) (pos + n)); g_stats.inc("fault.corrupt.delete"); break; }
@@ -201,7 +210,7 @@ static RunResult run_c03(const RunSpec &spec) {
         if (kind == 2 && r.chance(2, 3)) { bytes.push_back('\n'); bytes.push_back(';'); }
         bytes.push_back('\n'); lay = NULL;
     }
-    int ncor = spec.mods.no_faults ? 0 : (int) fr.weighted({35, 35, 20, 10});
+    int ncor = spec.mods.no_faults ? 0 : (int) fr.weighted({30, 30, 20, 10, 6, 4});
     for (int i = 0; i < ncor; ++i) corrupt(bytes, fr, lay);
     ParseOpts o; gen_opts(o, r);
     StreamCfg sc; sc.chunk = r.chance(1, 2) ? (size_t) r.range(1, 300) : 0;
